@@ -91,7 +91,7 @@ func classifyParseErr(err error) string {
 		return "PELoop"
 	case strings.HasPrefix(err.Error(), "too complex condition"):
 		return "PEComplex"
-	case strings.HasPrefix(err.Error(), "condition without opening bracket"):
+	case strings.HasPrefix(err.Error(), "condition without opening bracket"), strings.HasPrefix(err.Error(), "loop without opening bracket"), strings.HasPrefix(err.Error(), "switch without opening bracket"):
 		return "PENoBrace"
 	case strings.HasPrefix(err.Error(), "unknown getter nor modifier"):
 		return "PEUnknownGetter"
@@ -272,6 +272,38 @@ func mutateText(r *prng, src []byte) []byte {
 
 // ---------------------------------------------------------------- C08
 
+var bracedHeaders = []string{
+	"if jso.{a|b} == 1 {\n%s}\n",
+	"if jso.{a|b|c} != \"x\" {\n%s} else {\n%s}\n",
+	"if 5 <= jso.o.{k|l} {\n%s}\n",
+	"if ns::eq(jso.{a|b}, 1) {\n%s}\n",
+	"if v, ok := okh(jso.{a|b}); ok {\n%s}\n",
+	"switch jso.{a|b} {\ncase 1:\n%scase jso.{x|y}:\n%sdefault:\n%s}\n",
+	"switch {\ncase jso.{a|b} == 1:\n%scase isTrue(jso.{x|y}):\n%s}\n",
+	"for i := 0; i < 2; i++ {\nif jso.{a|b} == 1 {\n%s}\n}\n",
+	"for k, v := range jso.list {\nif v.{a|b} == 1 {\n%s} else {\n%s}\n}\n",
+}
+
+var bracedBodies = []string{"probe(1)\n", "obj.Id = jso.{a|b}\n", "obj.Status = jso.o.{k|l}|default(3)\n", "probe(jso.{a|b}, 2)\nobj.Name = \"x\"\n", ""}
+
+func bracedHeaderPrograms(r *prng, n int) []string {
+	var out []string
+	for _, h := range bracedHeaders {
+		out = append(out, fillBodies(r, h))
+	}
+	for i := 0; i < n; i++ {
+		out = append(out, fillBodies(r, pick(r, bracedHeaders))+fillBodies(r, pick(r, bracedHeaders)))
+	}
+	return out
+}
+
+func fillBodies(r *prng, h string) string {
+	for strings.Contains(h, "%s") {
+		h = strings.Replace(h, "%s", pick(r, bracedBodies), 1)
+	}
+	return h
+}
+
 func braceEdits(text string) [][]byte {
 	var out [][]byte
 	b := []byte(text)
@@ -362,6 +394,10 @@ func init() {
 		for i := 0; i < nProg; i++ {
 			progs = append(progs, genProgramText(rng, sum.Distribution))
 		}
+		// block headers that themselves contain braces (coalesce groups in
+		// conditions, switch subjects, case values, helper arguments): the
+		// block brace is still the one that ends the line
+		progs = append(progs, bracedHeaderPrograms(rng, 6)...)
 		for i := 0; i < nMut; i++ {
 			var base []byte
 			if rng.bool() && len(fx) > 0 {
